@@ -2,7 +2,7 @@
    Networks: Model/Pipelines.v. "Partial" in DESIGN.md's sense: channel hand-off, WaitGroup,
    context cancellation and goroutine exit are primitives of the model. *)
 From FunV Require Import Base.Tac Base.ListX Model.Pipelines
-  Proofs.Pipelines_conserve Proofs.Pipelines_quiesce Proofs.Pipelines_nets.
+  Proofs.Pipelines_conserve Proofs.Pipelines_quiesce Proofs.Pipelines_nets Proofs.Pipelines_complete.
 
 (* (iii) a goroutine blocked at a ctx-guarded select whose context is cancelled can take a step *)
 Theorem C04_ctx_guarded_enabled :
@@ -56,3 +56,21 @@ Theorem C04_close_idempotent :
     (forall x, cancelledb N s2 x = cancelledb N s1 x).
 Proof. exact close_idempotent. Qed.
 Print Assumptions C04_close_idempotent.
+
+(* C04_finite_input_eof, stated for every construct: an un-aborted run that can go no further has finished:
+   the consumer returned (it saw io.EOF) after the whole input and no goroutine is left *)
+Definition C04_finite_input_eof_statement : Prop :=
+  forall K srcs s,
+    reach (net_of K) (init_of K srcs) s -> s_stopped s = false -> quiescent (net_of K) s ->
+    all_done s /\ Permutation (s_deliv s) (concat srcs).
+
+(* proved (deadlock freedom) for the single-pump constructs - Buffer (any buffer size), Chain, MergeSlices,
+   MergeSliceIterators, dt.Map, adt.Map; for the multi-worker constructs the statement is exercised on every
+   harness case by the executable model (Corr/C04_corr.v: exhaust runs must end all-done with n delivered)
+   and on the real code by the exhaust scenarios; it is NOT proved for them. *)
+Theorem C04_finite_input_eof_partial :
+  forall b cap input s,
+    reach (sp_net b) (sp_init cap input) s -> s_stopped s = false -> quiescent (sp_net b) s ->
+    all_done s /\ consumer_done s /\ s_deliv s = input.
+Proof. exact sp_quiescent_done. Qed.
+Print Assumptions C04_finite_input_eof_partial.
